@@ -572,9 +572,6 @@ package leader
 //@   on call cancel set e.stopped = true
 //@   on unlock kvElection.mu when firstUnlock assert C19+C09.stop_cancels_before_release: ctxNilL || calls(cancel) == 1
 //@   on unlock kvElection.mu set firstUnlock = false
-//@   ghost drained Bool = false
-//@   on recv local set drained = true
-//@   on store kvElection.ctx as s when s.value == nil assert C09.context_cleared_only_after_drain: drained
 //@   on call KeyValue.Delete assert C19+C09.delete_after_cancel: calls(cancel) == 1
 //@   on load kvElection.onDemote as l when l.value == nil set demoteNilSeen = true
 //@   on call KeyValue.Delete set mayDelete = opts.DeleteKey && wasLeaderL
